@@ -37,13 +37,16 @@ CONSTANTS
   CfgKind,     \* "fixed": limit_mib / spike_limit_mib;  "percent": limit_percentage / spike_limit_percentage
   CfgLimit,    \* MiB or percent
   CfgSpike,    \* MiB or percent; 0 = unspecified
-  TotalMem,    \* total memory in bytes (used by "percent")
+  TotalMem,    \* total memory in memory units (used by "percent")
+  UnitsPerMiB, \* memory unit of the model: 1 MiB / UnitsPerMiB bytes.  1048576: the unit is the byte.  TLC's integers
+               \* have 32 bits, so limits of 4096 MiB and more (which Config.Validate accepts) need a coarser unit;
+               \* readings then differ from the thresholds by one unit instead of one byte
   SoftInt,     \* min_gc_interval_when_soft_limited (time units)
   HardInt,     \* min_gc_interval_when_hard_limited (time units)
   MaxT,        \* cap of the elapsed-time counter
   Users        \* users sharing the limiter
 
-MiB == 1048576
+MiB == UnitsPerMiB
 
 \* getMemUsageChecker / newFixedMemUsageChecker / newPercentageMemUsageChecker
 Limit    == IF CfgKind = "fixed" THEN CfgLimit * MiB ELSE (CfgLimit * TotalMem) \div 100
